@@ -348,7 +348,10 @@ pub fn req_case(out: &mut Out, w: &mut Worker, rc: &mut ReqCases, prop: &str, te
         out.stat("req.ok");
         // with the extension feature a text after `@` that is not a URL is a path: relative to the working
         // directory `parse_reporter` is given, an error for `from_str`, which has none — a documented difference
-        if ans.contains("ENTRYPOINTS-DIFFER") && !cfg!(feature = "ext") { out.oracle_fail(prop, "Requirement::from_str and Requirement::parse_reporter disagree", input.clone()); }
+        // (with the extension feature a RELATIVE path depends on the working directory one entry point takes and the other
+        //  does not; an absolute file URL or path does not)
+        let absolute = text.split_once('@').map(|(_, u)| u.trim_start()).is_some_and(|u| u.starts_with("file:///") || u.starts_with("file://localhost/") || u.starts_with('/') || u.starts_with("http://") || u.starts_with("https://"));
+        if ans.contains("ENTRYPOINTS-DIFFER") && (!cfg!(feature = "ext") || absolute) { out.oracle_fail(prop, "Requirement::from_str and Requirement::parse_reporter disagree", input.clone()); }
         if let Some((_, why)) = ans.split_once(" GENERIC-DIFFER:") { out.oracle_fail(if prop == "C08" { "C08" } else { "C07" }, &format!("the generic parser Requirement<Url> and Requirement<VerbatimUrl> disagree on the same text ({why})"), input.clone()); }
     }
     ans
@@ -461,6 +464,8 @@ pub fn gen_deriv(rng: &mut Rng, p: &Pools) -> Deriv {
         "file:///tmp/p#x%2541", "file:///tmp/a%2541/b#c%25d", "file:///tmp/p.tar.gz#egg=pkg&subdirectory=python%2Fpkg", "file:///tmp/p%20q#egg=a%20b", "https://x.org/p#x%2541",
         // percent escapes that do not decode to UTF-8 (a lone continuation byte, 0xFF, a truncated sequence, an encoded surrogate)
         "file:///tmp/pkg-%FF.whl", "file:///tmp/a%80b", "file://localhost/tmp/x%E2%82", "file:///tmp/s%ED%A0%80#egg=x", "https://x.org/p%FF",
+        // a fragment that looks like a path with `.` / `..` / `//` segments: it is a fragment, not a path
+        "file:///srv/pkg.tar.gz#subdirectory=src/./core", "file://localhost/srv/a#b/../c.whl", "file:///srv/x.whl#a//b",
         // more than one `#`: the fragment starts at the FIRST one
         "file:///tmp/p.whl#sha256=abc#egg=demo", "https://x.org/p.whl#a#b"];
     let name = rng.pick(&names).to_string();
@@ -639,6 +644,13 @@ pub fn run(out: &mut Out, tier: &str, seed: u64, prop: &str) {
             texts.push(format!("foo[bar]>=1.0 ; os_name == 'posix' and extra != {q}{v}{q}"));
             texts.push(format!("foo @ https://example.org/foo.whl ; {q}{v}{q} == extra"));
             texts.push(format!("foo ; platform_release == {q}C:\\{v}{q}"));
+        }
+        // two different invalid extra names under opposite operators (different variables of the diagram)
+        for (a, b) in [("foo bar", "baz!"), ("a b", "c d"), ("\u{e9}", "\u{fc}")] {
+            texts.push(format!("pkg ; extra == '{a}' or extra != '{b}'"));
+            texts.push(format!("pkg ; extra == '{a}' or (extra != '{b}' and os_name == 'nt')"));
+            texts.push(format!("pkg[x] @ https://example.org/p.whl ; sys_platform == 'win32' and (extra == '{a}' or extra != '{b}')"));
+            texts.push(format!("pkg>=1.0,<2 ; extra != '{a}' or extra == '{b}'"));
         }
         for text in texts {
             let ans = req_case(out, &mut w, &mut rc, prop, &text, &vars);
@@ -865,6 +877,8 @@ pub fn run(out: &mut Out, tier: &str, seed: u64, prop: &str) {
             "p;q", "p; q", "p ;q", "p #c", "p# c", "p\n; m", "p\r x", "p\r\n", "", " ", "[x]", "a]", "a[", "p ; os_name == 'a' x", "p;", "p; ", "p#", "p[x]; ", "p[x]# y", "./a b", "./a b ; os_name == 'a'",
             // malformed extras behind a variable whose value is longer / shorter than its reference, ASCII and not
             "${VP_LONG}/foo-1.0-py3-none-any.whl[dev,]", "${VP_LONG}[,]", "${VP_HOME_DIR}/\u{43f}\u{430}\u{43a}\u{435}\u{442}[dev,]", "${VP_EMPTY}\u{65e5}\u{672c}[a b]", "${VP_LONG}/x[\u{e9}]", "${VP_TOKEN_1}\u{e9}\u{e9}[a,,b]", "./${VP_LONG}[dev ; os_name == 'a'",
+// leading blanks AND a non-ASCII path before malformed extras (the extras error is re-based past both)
+            "  ./\u{e9}[,]", "   ./x\u{65e5}[!]", "\t ./dir/\u{fc}[!]", " \u{a0}./\u{e9}\u{e9}[a,,b]", "  /\u{1F600}[\u{e9}]",
             "p [x]", "p\t[x] ; os_name=='a'", "/\u{65e5}[\u{672c}]", "p[x]\u{3000};os_name=='a'", "p;\u{3000}#x", "/a;[x]\u{3000}#c", "/a#[x]\u{2003}x", "/a;[x] #c", "C:\\a\\b.whl[x]", "a:b", "1a:b", "../x[y] # c"];
         for t in targeted { unnamed_case(out, &mut w, &mut rc, t, &vars); out.nontrivial(format!("unnamed {t}")); }
         let bases = ["https://x.org/a-1.0.whl[dev]", "../rel/p.tar.gz ; os_name == 'a'", "/abs/path[dev,test] ; python_version > '3'", "file:///tmp/x[a]", "git+https://github.com/a/b.git@main#egg=b", "${VP_HOME_DIR}/x [x]", "./p # c"];
